@@ -166,6 +166,9 @@ void
 Ipc::TypedMsgHdr::getRaw(void *rawBuf, size_t rawSize) const
 {
     if (rawSize > 0) {
+        // data.size arrives with the message: never trust it beyond our buffer
+        Must(data.size <= sizeof(data.raw));
+        Must(offset <= data.size);
         Must(rawSize <= data.size - offset);
         memcpy(rawBuf, data.raw + offset, rawSize);
         offset += rawSize;
